@@ -26,7 +26,7 @@ ASSUMPTIONS = [
 ]
 
 PROFILE = scenario.profile(
-    maxD=3, extra_budget=(0, 100), p_subdesign=0.08, cons_x0=("margin",),
+    maxD=3, extra_budget=(0, 100), p_subdesign=0.08, cons_x0=("margin", "margin", "snap_only", "boundary"),
     max_iter_choices=(None, None, 1, 2, 3, 5), tol_mesh_choices=(None, 1e-6, 1e-3, 0.1, 0.6, 0.125, 0.03125),
     noise_modes=("none", "none", "auto", "declared", "specified"),
     specified_spellings=("both", "alone"),
@@ -83,6 +83,8 @@ def oracle(scn, tr, scripted=False):
     max_iter = opts_user.get("max_iter", 200 * D)
     ncalls = len(tr.calls)
     evals += 1
+    if tr.user_object is not None and tr.user_object.received != ncalls:
+        v.append(viol("a:func-count", f"{ncalls} evaluations recorded but the user's callable object received {tr.user_object.received}", site="user-object"))
     # (a) honest counting
     if not (ncalls == r["func_count"] == b.function_logger.func_count):
         v.append(viol("a:func-count", f"target calls={ncalls} result.func_count={r['func_count']} logger.func_count={b.function_logger.func_count}"))
